@@ -395,6 +395,29 @@ func (x *Exec) runBody(recv *ast.FieldList, ftype *ast.FuncType, body *ast.Block
 		}
 		x.contract = false
 	}
+	// a postcondition that no normal exit reaches (the function always panics: osExit, logFatal) holds
+	// vacuously; it is recorded all the same, so that the recorded baseline names it and a change that
+	// opens a normal exit on which it fails is a violation of a claimed obligation
+	for i, en := range c.Ensures {
+		if en.Prop != "" && en.Prop != x.prop {
+			continue // tagged: a local, a path or another property; only plain clauses get the vacuous form
+		}
+		lab := en.Label
+		if lab == "" {
+			lab = fmt.Sprintf("ensures%d", i+1)
+		}
+		name := x.unit + "/post:" + lab
+		if x.caseName != "" {
+			name += "[" + x.caseName + "]"
+		}
+		if x.obls[name] == nil {
+			ob := &Obligation{Name: name, Prop: x.prop, Unit: x.unit, Kind: "post", Src: en.Src + "  (no normal exit reaches this clause)", x: x, Case: x.caseName}
+			ob.disjuncts = []string{"false"}
+			ob.decls = len(x.decls)
+			x.obls[name] = ob
+			x.oblOrder = append(x.oblOrder, name)
+		}
+	}
 	// reachability (vacuity guard): some path must be feasible under requires + case
 	cov := &Obligation{Name: x.unit + "/cover:reachable", Prop: x.prop, Unit: x.unit, Kind: "cover", x: x, Cover: true, Case: x.caseName}
 	if x.caseName != "" {
